@@ -1,25 +1,61 @@
 import RawPanelVerif.Lemmas.NetFeed
 import RawPanelVerif.Lemmas.NetTimed
 import RawPanelVerif.Lemmas.NetAscii
+import RawPanelVerif.Lemmas.NetRun
+import RawPanelVerif.Lemmas.NetContract
+import RawPanelVerif.Lemmas.NetScript
 /-!
 # C08 — receive framing is independent of TCP segmentation and timing
 
-Property theorems only.  `Net.feed` is the binary read loop consuming a byte stream (connecttopanel.go 178-205),
-`Net.asciiFeed` the ASCII read loop (206-223), `Net.step` the binary loop with its read deadline as explicit state.
-The statement of "exactly those messages" is the Spec's reference reader (`Spec.Net.parse`, `Spec.Net.lines`),
-which shares no code with the model.  No bound on stream length, number of messages or number of segments.
+Property theorems only.  `Net.feed` is the binary read loop consuming a byte stream (connecttopanel.go 183-213),
+`Net.asciiFeed` the ASCII read loop (216-230), `Net.step` / `Net.runL` the binary loop as a timed LTS with the
+connection's deadlines as explicit state and every `Set…Deadline` call site as a field of the configuration
+(`Net.Cfg`; `Net.repaired` = the code as it is), `Net.runT` the deterministic script runner the trace validation uses.
+"Exactly those messages" is the Spec's reference reader (`Spec.Net.parse`, `Spec.Net.lines`), which shares no code
+with the model.  No bound on stream length, number of messages, number of segments or length of a run.
 
+**Observation outside the domain: what "the 2 s in-frame timeout" is.**  The code's in-frame limit is *absolute
+per read*: the rest of the header must arrive less than 2 s after the frame's first byte, the whole payload less than
+2 s after the header's last byte (`Spec.Net.inContractT`).  The property's "2 s in-frame timeout" is read accordingly
+as "each frame completes within 2 s of its header" (decision of the project lead); a frame that trickles in with
+gaps below 2 s but a payload read longer than 2 s is outside the domain: the client drops it (`slow_trickle_dropped`
+is the witness), the monitors skip such scripts (`frame-slower-than-contract`), the generators do not contain them.
+The theorems below state the contract exactly as the code gives it.
+
+Untimed (every stream, every segmentation):
 * `delivered_eq_parse`              deliveries after any byte stream = the messages the reference parser finds in it
-* `feed_segmentation_independent`   any cut of a stream into segments gives the same state and the same deliveries
+* `feed_segmentation_independent`, `same_stream_same_outcome`   any cut of a stream gives the same state and deliveries
 * `delivered_prefix`                after any prefix of the stream, the deliveries are a prefix of the stream's messages
-* `quiescent_complete`              when all bytes of a message sequence are consumed, all of it has been delivered
-                                    (each once, in order) and the loop is waiting for a header again
-* `idle_gap_harmless`               in every reachable state of the timed LTS, while the loop waits for the first
-                                    byte of a header no deadline is armed: no idle period, however long, can end the
-                                    connection (what a dropped `SetReadDeadline(time.Time{})` would falsify)
-* `expire_only_outside_contract`, `in_contract_never_expires`   the timeout can fire only ≥ 2 s after the first byte of
-                                    an incomplete frame: a panel inside its timing contract is never dropped by it
-* `lines_eq_reference`, `lines_segmentation_independent`, `crlf_eq_lf`   the ASCII analogues
+* `quiescent_complete`(`_any`)      when all bytes of a message sequence are consumed, all of it has been delivered
+Timed LTS (every run, every configuration unless said otherwise):
+* `runL_arrivals_eq_feed`           the effects of a labelled run are those of `feed` on the bytes that arrived before
+                                    the loop ended; the final loop state is what they lead to plus what ended the loop
+* `runL_deliveries_eq_parse`        hence the deliveries of any run of a fresh connection are the reference messages
+* `idle_gap_harmless`               (configurations with the loop-top reset, 184) in every reachable state in which the
+                                    loop waits for the first byte of a header no read deadline is armed and `expire` is
+                                    disabled, whatever the time
+* `entry_clears_probe_deadline`     the `enter` step (lines 117 … 184) leaves no read deadline, whatever the probe left
+* `resets_moved_counterexample`     without the reset at 117 and with the loop-top reset moved behind the delivery (the
+                                    shape of seeded change C08-4) the probe deadline is still armed when the loop waits
+                                    for its first header: `expire` is enabled before any byte has arrived
+* `loop_top_reset_needed_counterexample`   without the reset at 184 an idle gap after a frame ends the connection
+* `expire_only_outside_contract`, `in_contract_never_expires`   the timeout can fire only inside a frame, `frameTimeout`
+                                    or more after the first byte of that frame
+* `runT_in_contract_complete`       for every script without close whose time-stamped bytes keep the contract
+                                    (`Spec.Net.inContractT`: complete frames below the limit, header rest < 2 s after the
+                                    first byte, payload < 2 s after the header), whatever the idle periods between
+                                    frames: `runT` never stops, delivers exactly the reference messages, and the stream
+                                    ends at a message boundary
+* `slow_trickle_dropped`            witness for the observation above: gaps of 700 ms, payload read 2.1 s: dropped
+ASCII:
+* `lines_model`                     deliveries = `TrimSpace(line + LF)` per LF-terminated line (all streams)
+* `lines_eq_reference`              = the reference lines, for streams whose lines have no non-ASCII white space at an
+                                    edge (`Spec.Net.edgeClean`; guard exact for the trimming step: `trimSpace_eq_trim`),
+* `nbsp_line_counterexample`        and not otherwise: `strings.TrimSpace` also strips U+00A0, U+0085, U+2028 …
+* `lines_segmentation_independent`, `unterminated_line_not_delivered`, `crlf_eq_lf`
+* `ascii_idle_gap_harmless`         with the reset at 117 no deadline is in force in the ASCII loop: no script without
+                                    close ever stops it; `ascii_reset_needed_counterexample`: without 117 a panel that is
+                                    silent for 2 s after the probe is dropped
 -/
 namespace RawPanelVerif.C08
 open RawPanelVerif RawPanelVerif.Net
@@ -59,94 +95,190 @@ theorem quiescent_complete_any (s : Bytes) (fs : List Bytes) (t : Spec.Net.Tail)
     deliveries (feed .init s).2 = fs := by
   rw [delivered_eq_parse, h]
 
-/-- **idle gaps are harmless** (both the pinned and the repaired deadline discipline): in every state reachable by
-any sequence of arrivals, expiries and closes, if the loop is waiting for the first byte of a header then no
-deadline is armed and `expire` is not enabled, whatever the time -/
-theorem idle_gap_harmless (cfg : Cfg) (s : CState) (h : Reachable cfg s) (hw : s.r = .waitHdr []) :
-    s.dl = none ∧ ∀ now, step cfg s (.expire now) = none := by
-  have hi := (inv_reachable cfg s h).armedIff
+/-! ### the timed LTS -/
+
+/-- **a labelled run against the untimed loop** (every configuration, every run): the effects of the run are those of
+`feed` on the bytes that arrived before the loop ended; the final loop state is the one these bytes lead to, followed
+by the label that ended the loop -/
+theorem runL_arrivals_eq_feed (cfg : Cfg) (s s' : CState) (ls : List Lbl) (e : List Eff)
+    (h : runL cfg s ls = some (s', e)) :
+    e = (feed s.r (arrivedBefore ls)).2 ∧ s'.r = afterStop (firstStop ls) (feed s.r (arrivedBefore ls)).1 :=
+  runL_feed cfg ls s s' e h
+
+/-- … so the deliveries of *any* run of a fresh connection are exactly the messages the reference parser finds in the
+bytes that arrived before the loop ended -/
+theorem runL_deliveries_eq_parse (cfg : Cfg) (tp : Nat) (s' : CState) (ls : List Lbl) (e : List Eff)
+    (h : runL cfg (CState.probed cfg tp) ls = some (s', e)) :
+    deliveries e = (Spec.Net.parse limit (arrivedBefore ls)).1 := by
+  rw [(runL_feed cfg ls _ s' e h).1]
+  exact delivered_eq_parse _
+
+/-- **idle gaps are harmless** (every configuration with the loop-top reset; `repaired` and `pinned` are such): in
+every state reachable by any sequence of labels, if the loop has been entered and waits for the first byte of a
+header then no read deadline is armed and `expire` is not enabled, whatever the time -/
+theorem idle_gap_harmless (cfg : Cfg) (hc : Coded cfg) (s : CState) (h : Reachable cfg s) (he : s.entered = true)
+    (hw : s.r = .waitHdr []) : s.dl.rd = none ∧ ∀ now, step cfg s (.expire now) = none := by
+  have hi := (inv_reachable cfg hc s h).armedIff he (by rw [hw]; rfl)
   rw [hw] at hi
-  have hd : s.dl = none := by
-    cases hdl : s.dl with
+  have hd : s.dl.rd = none := by
+    cases hdl : s.dl.rd with
     | none => rfl
     | some d => rw [hdl] at hi; simp [armed] at hi
   exact ⟨hd, fun now => by simp [step, hd]⟩
 
-/-- **a panel inside its timing contract is never dropped by a deadline** (both deadline disciplines): in every
-reachable state, the timeout can only fire inside a frame and only when `frameTimeout` or more has passed since the
-*first* byte of that frame was consumed (`fstart`).  So if every message arrives completely within less than 2 s of
-its first byte — whatever the idle periods between messages — `expire` is never enabled. -/
-theorem expire_only_outside_contract (cfg : Cfg) (s s' : CState) (e : List Eff) (now : Nat) (h : Reachable cfg s)
-    (hx : step cfg s (.expire now) = some (s', e)) :
-    s.r ≠ .waitHdr [] ∧ s.r.live = true ∧ s.fstart + frameTimeout ≤ now := by
-  have hi := inv_reachable cfg s h
-  simp only [step] at hx
-  split at hx
-  · rename_i d hd
-    split at hx
-    · rename_i hg
-      refine ⟨?_, hg.2.2, ?_⟩
-      · intro hw
-        have := (idle_gap_harmless cfg s h hw).1
-        rw [this] at hd; cases hd
-      · have := hi.startBound d hd
-        omega
-    · simp at hx
-  · simp at hx
+/-- the `enter` step (line 117, then the loop top at 184) leaves no read deadline armed, whatever line 88 armed and
+whatever sits at 117: in binary mode the reset at 184 alone suffices -/
+theorem entry_clears_probe_deadline (cfg : Cfg) (hc : Coded cfg) (tp now : Nat) :
+    (CState.start cfg tp now).dl.rd = none := enterLoop_rd cfg hc now _
 
-theorem in_contract_never_expires (cfg : Cfg) (s : CState) (now : Nat) (h : Reachable cfg s)
-    (hc : now < s.fstart + frameTimeout) : step cfg s (.expire now) = none := by
+/-- the configuration of seeded change C08-4: no reset at 117 (binary path), the loop-top reset moved behind the
+delivery of a frame -/
+def resetsMoved : Cfg := { repaired with afterProbe := .skip, loopTop := .skip, afterPayload := .clear .read }
+
+/-- **the resets are needed where they are**: in that configuration the probe deadline (armed at 0, due at 2000) is
+still in force when the loop waits for its first header; a panel that is idle for 2 s after the handshake is dropped
+before it has sent anything, and a byte arriving later is not read -/
+theorem resets_moved_counterexample :
+    (runL resetsMoved (CState.probed resetsMoved 0) [.enter 10, .expire 2000]).map (fun r => r.1.r)
+      = some (.stopped .timeout) ∧
+    runL resetsMoved (CState.probed resetsMoved 0) [.enter 10, .arrive 2500 1] = none ∧
+    (runT resetsMoved 0 (CState.start resetsMoved 0 10) [(2490, .bytes [1, 0, 0, 0, 7])] {}).stop = some (.timeout, 2000) ∧
+    (runT repaired 0 (CState.start repaired 0 10) [(2490, .bytes [1, 0, 0, 0, 7])] {}).stop = none := by
+  refine ⟨by decide, by decide, by decide, by decide⟩
+
+/-- without the reset at the loop top the payload deadline of a delivered frame stays armed: an idle gap of more
+than 2 s after a frame ends the connection -/
+theorem loop_top_reset_needed_counterexample :
+    (runT { repaired with loopTop := .skip } 0 (CState.start { repaired with loopTop := .skip } 0 0)
+      [(100, .bytes [1, 0, 0, 0, 7]), (2500, .bytes [1, 0, 0, 0, 8])] {}).stop = some (.timeout, 2100) ∧
+    deliveries (runT repaired 0 (CState.start repaired 0 0)
+      [(100, .bytes [1, 0, 0, 0, 7]), (2500, .bytes [1, 0, 0, 0, 8])] {}).effs = [[7], [8]] := by
+  refine ⟨by decide, by decide⟩
+
+/-- **a panel inside its timing contract is never dropped by a deadline**: in every reachable state, the timeout
+can only fire inside a frame and only when `frameTimeout` or more has passed since the *first* byte of that frame was
+consumed (`fstart`) -/
+theorem expire_only_outside_contract (cfg : Cfg) (hc : Coded cfg) (s s' : CState) (e : List Eff) (now : Nat)
+    (h : Reachable cfg s) (hx : step cfg s (.expire now) = some (s', e)) :
+    s.r ≠ .waitHdr [] ∧ s.r.live = true ∧ s.fstart + frameTimeout ≤ now := by
+  have hi := inv_reachable cfg hc s h
+  obtain ⟨d, hd, he, _, hdn, hl, _, _⟩ := step_expire hx
+  refine ⟨?_, hl, ?_⟩
+  · intro hw
+    have := (idle_gap_harmless cfg hc s h he hw).1
+    rw [this] at hd; cases hd
+  · have := hi.startBound he hl d hd
+    omega
+
+theorem in_contract_never_expires (cfg : Cfg) (hc : Coded cfg) (s : CState) (now : Nat) (h : Reachable cfg s)
+    (hcn : now < s.fstart + frameTimeout) : step cfg s (.expire now) = none := by
   cases hx : step cfg s (.expire now) with
   | none => rfl
   | some r =>
-    have := (expire_only_outside_contract cfg s r.1 r.2 now h hx).2.2
+    have := (expire_only_outside_contract cfg hc s r.1 r.2 now h hx).2.2
     omega
 
 /-- consequence for timed runs: a script that only waits (no bytes) between messages never stops the loop -/
-theorem idle_wait_does_not_stop (cfg : Cfg) (m : Nat) (s : CState) (hw : s.r = .waitHdr []) (hd : s.dl = none)
+theorem idle_wait_does_not_stop (cfg : Cfg) (m : Nat) (s : CState) (hd : s.dl.rd = none)
     (d : Nat) (rest : TScript) (o : Outcome) :
-    runT cfg m s ((d, .nothing) :: rest) o = runT cfg m { s with clock := s.clock + d } rest o := by
-  simp [runT, hd]
+    (runT cfg m s ((d, .nothing) :: rest) o).stop = (runT cfg m { s with clock := s.clock + d } rest o).stop ∧
+    (runT cfg m s ((d, .nothing) :: rest) o).effs = (runT cfg m { s with clock := s.clock + d } rest o).effs := by
+  simp [runT, hd, firedAt, tightAt]
+
+/-- **complete inside the contract**: take any script without `close` (any segmentation, any delays, any idle
+periods) whose time-stamped byte stream keeps the timing contract of the code — a sequence of complete frames below
+the limit, the rest of each header less than `frameTimeout` after the frame's first byte, each payload less than
+`frameTimeout` after its header.  Then the run of the client never stops, its deliveries are exactly the messages
+of the stream, and the stream ends at a message boundary.  (`tp`: when the probe deadline was armed; `t0`: when the
+loop was entered; `m`: the margin used for the `tight` flag, irrelevant here.) -/
+theorem runT_in_contract_complete (m tp t0 : Nat) (ts : TScript) (hnc : noClose ts = true)
+    (hct : Spec.Net.inContractT limit frameTimeout (timedBytes t0 ts) = true) :
+    (runT repaired m (CState.start repaired tp t0) ts {}).stop = none ∧
+    deliveries (runT repaired m (CState.start repaired tp t0) ts {}).effs = (Spec.Net.parse limit (scriptBytes ts)).1 ∧
+    (Spec.Net.parse limit (scriptBytes ts)).2 = .done := by
+  have hst : St (CState.start repaired tp t0) (.waitHdr []) none t0 :=
+    ⟨rfl, enterLoop_rd repaired coded_repaired t0 _, rfl, rfl⟩
+  obtain ⟨s', e, hr, hs'⟩ := run_in_contract repaired coded_repaired rfl _ (timedBytes t0 ts) _ t0 (Nat.le_refl _) hst
+    (timedBytes_sorted ts t0) hct
+  obtain ⟨he, hr'⟩ := runL_feed repaired _ _ s' e hr
+  rw [arrivedBefore_arrivals, timedBytes_bytes] at he hr'
+  rw [firstStop_arrivals] at hr'
+  have hfin : (feed .init (scriptBytes ts)).1 = .waitHdr [] := by
+    have : s'.r = (feed .init (scriptBytes ts)).1 := hr'
+    rw [← this]; exact hs'.1
+  have h := runT_of_runL repaired m ts (CState.start repaired tp t0) {} s' e hnc hr (by rw [hs'.1]; rfl) hs'.2.1
+  refine ⟨h.1, ?_, ?_⟩
+  · rw [h.2, List.nil_append, he]; exact delivered_eq_parse _
+  · have hp := (feed_init_parse (scriptBytes ts)).1
+    rw [hfin] at hp
+    exact stateOfTail_boundary _ (fun r hr => parse_incomplete_ne limit _ r (by rw [hr])) hp.symm
+
+/-- **the contract is absolute, not a gap** (the observation recorded in the header): a 3-byte payload whose bytes come
+700 ms apart — never a gap of 2 s — is outside the contract and the client drops the connection 2000 ms after the
+header, having delivered nothing -/
+theorem slow_trickle_dropped :
+    Spec.Net.inContractT limit frameTimeout
+      (timedBytes 0 [(0, .bytes [3, 0, 0, 0]), (700, .bytes [1]), (700, .bytes [2]), (700, .bytes [3])]) = false ∧
+    runT repaired 0 (CState.start repaired 0 0)
+      [(0, .bytes [3, 0, 0, 0]), (700, .bytes [1]), (700, .bytes [2]), (700, .bytes [3])] {}
+      = { effs := [.alloc 3], stop := some (.timeout, 2000), tight := false } := by
+  refine ⟨by simp [timedBytes, Spec.Net.inContractT, Spec.Net.u32le, limit, frameTimeout, Gen.clientFrameLimit,
+    Gen.clientFrameTimeoutMs], by decide⟩
 
 /-! ### ASCII -/
 
-/-- **ASCII: exactly the lines**: deliveries = the reference reader's lines (split at LF, CR / blanks trimmed),
-one delivery per LF-terminated line, in order -/
-theorem lines_eq_reference (s : Bytes) : (asciiFeed [] s).2 = Spec.Net.lines s := by
-  have := (asciiFeed_spec [] s (by simp)).1
+/-- **ASCII, every stream**: one delivery per LF-terminated line, in order: `strings.TrimSpace` of the line -/
+theorem lines_model (s : Bytes) :
+    (asciiFeed [] s).2 = (Spec.Net.splitLF s).1.map (fun l => trimSpace (l ++ [10])) := by
+  simpa using (asciiFeed_lines [] s (by simp)).1
+
+/-- **ASCII: exactly the lines**: deliveries = the reference reader's lines (split at LF, CR / ASCII blanks trimmed),
+for every stream whose lines carry no *non-ASCII* white space at an edge -/
+theorem lines_eq_reference (s : Bytes) (hc : ∀ l ∈ (Spec.Net.splitLF s).1, Spec.Net.edgeClean l = true) :
+    (asciiFeed [] s).2 = Spec.Net.lines s := by
+  have := (asciiFeed_spec [] s (by simp) (by simpa using hc)).1
   simpa [Spec.Net.lines] using this
+
+/-- the guard of `lines_eq_reference` is needed: Go's `TrimSpace` also strips U+00A0 (and the other non-ASCII white
+space); the reference keeps it.  `48 57 43 23 35 3d 44 6f 77 6e c2 a0 0a` = `HWC#5=Down<NBSP><LF>` -/
+theorem nbsp_line_counterexample :
+    (asciiFeed [] [0x48, 0x57, 0x43, 0x23, 0x35, 0x3d, 0x44, 0x6f, 0x77, 0x6e, 0xc2, 0xa0, 10]).2
+      = [[0x48, 0x57, 0x43, 0x23, 0x35, 0x3d, 0x44, 0x6f, 0x77, 0x6e]] ∧
+    Spec.Net.lines [0x48, 0x57, 0x43, 0x23, 0x35, 0x3d, 0x44, 0x6f, 0x77, 0x6e, 0xc2, 0xa0, 10]
+      = [[0x48, 0x57, 0x43, 0x23, 0x35, 0x3d, 0x44, 0x6f, 0x77, 0x6e, 0xc2, 0xa0]] ∧
+    Spec.Net.edgeClean [0x48, 0x57, 0x43, 0x23, 0x35, 0x3d, 0x44, 0x6f, 0x77, 0x6e, 0xc2, 0xa0] = false := by
+  refine ⟨by decide, by decide, by decide⟩
 
 theorem lines_segmentation_independent (segs : List Bytes) :
     asciiFeedAll [] segs = asciiFeedAll [] [segs.flatten] := by
   simp only [asciiFeedAll_eq_flatten, List.flatten_cons, List.flatten_nil, List.append_nil]
 
+/-- the buffer of the ASCII loop never contains LF -/
+theorem asciiFeed_buf_noLF : ∀ (t buf : Bytes), (10 : UInt8) ∉ buf → (10 : UInt8) ∉ (asciiFeed buf t).1 := by
+  intro t
+  induction t with
+  | nil => intro buf hb; simpa [asciiFeed] using hb
+  | cons b r ih =>
+    intro buf hb
+    by_cases h10 : b = 10
+    · simp only [asciiFeed_cons, asciiStep, h10, if_true]; exact ih [] (by simp)
+    · simp only [asciiFeed_cons, asciiStep, h10, if_false]
+      exact ih _ (by simp only [List.mem_append, List.mem_singleton, not_or]; exact ⟨hb, fun e => h10 e.symm⟩)
+
 /-- an unterminated last line is not delivered (it stays in the buffer) -/
 theorem unterminated_line_not_delivered (s tail : Bytes) (h : (10 : UInt8) ∉ tail) :
     (asciiFeed [] (s ++ tail)).2 = (asciiFeed [] s).2 := by
   rw [asciiFeed_append]
-  have hs := (asciiFeed_spec [] s (by simp)).2
-  have hno : (10 : UInt8) ∉ (asciiFeed [] s).1 := by
-    -- the buffer never contains LF
-    have : ∀ (buf t : Bytes), (10 : UInt8) ∉ buf → (10 : UInt8) ∉ (asciiFeed buf t).1 := by
-      intro buf t
-      induction t generalizing buf with
-      | nil => intro hb; simpa [asciiFeed] using hb
-      | cons b r ih =>
-        intro hb
-        by_cases h10 : b = 10
-        · simp only [asciiFeed_cons, asciiStep, h10, if_true]; exact ih [] (by simp)
-        · simp only [asciiFeed_cons, asciiStep, h10, if_false]
-          exact ih _ (by simp only [List.mem_append, List.mem_singleton, not_or]; exact ⟨hb, fun e => h10 e.symm⟩)
-    exact this [] s (by simp)
-  have := (asciiFeed_spec (asciiFeed [] s).1 tail hno).1
+  have hno : (10 : UInt8) ∉ (asciiFeed [] s).1 := asciiFeed_buf_noLF s [] (by simp)
+  have := (asciiFeed_lines (asciiFeed [] s).1 tail hno).1
   rw [this, splitLF_noLF _ (by simp only [List.mem_append, not_or]; exact ⟨hno, h⟩)]
   simp
 
 def joinEol (eol : Bytes) (ls : List Bytes) : Bytes := (ls.map (· ++ eol)).flatten
 
-theorem lines_join (ls : List Bytes) (pad : Bytes) (hls : ∀ l ∈ ls, (10 : UInt8) ∉ l)
+theorem splitLF_join (ls : List Bytes) (pad : Bytes) (hls : ∀ l ∈ ls, (10 : UInt8) ∉ l)
     (hpad : ∀ c ∈ pad, Spec.Net.isBlank c = true ∧ c ≠ 10) :
-    Spec.Net.lines (joinEol (pad ++ [10]) ls) = ls.map Spec.Net.trim := by
+    Spec.Net.splitLF (joinEol (pad ++ [10]) ls) = (ls.map (· ++ pad), []) := by
   induction ls with
   | nil => rfl
   | cons l r ih =>
@@ -154,28 +286,83 @@ theorem lines_join (ls : List Bytes) (pad : Bytes) (hls : ∀ l ∈ ls, (10 : UI
       simp only [List.mem_append, not_or]
       exact ⟨hls l (by simp), fun h => (hpad 10 h).2 rfl⟩
     have ih := ih (fun x hx => hls x (by simp [hx]))
-    simp only [Spec.Net.lines, joinEol] at ih ⊢
+    simp only [joinEol] at ih ⊢
     simp only [List.map_cons, List.flatten_cons]
     rw [show l ++ (pad ++ [10]) ++ (List.map (fun x => x ++ (pad ++ [10])) r).flatten
           = (l ++ pad) ++ 10 :: (List.map (fun x => x ++ (pad ++ [10])) r).flatten by simp]
-    rw [splitLF_line _ _ hl]
-    simp only [List.map_cons, ih]
-    rw [trim_append_blanks l pad (fun c hc => (hpad c hc).1)]
+    rw [splitLF_line _ _ hl, ih]
 
-/-- **CRLF = LF**: the same lines terminated by CR LF or by LF (or padded with blanks before the terminator) are
-delivered identically -/
-theorem crlf_eq_lf (ls : List Bytes) (hls : ∀ l ∈ ls, (10 : UInt8) ∉ l) :
+theorem lines_join (ls : List Bytes) (pad : Bytes) (hls : ∀ l ∈ ls, (10 : UInt8) ∉ l)
+    (hpad : ∀ c ∈ pad, Spec.Net.isBlank c = true ∧ c ≠ 10) :
+    Spec.Net.lines (joinEol (pad ++ [10]) ls) = ls.map Spec.Net.trim := by
+  simp only [Spec.Net.lines, splitLF_join ls pad hls hpad, List.map_map]
+  exact List.map_congr_left (fun l _ => trim_append_blanks l pad (fun c hc => (hpad c hc).1))
+
+/-- **CRLF = LF**: the same lines (no non-ASCII white space at their edges) terminated by CR LF or by LF (or padded
+with blanks before the terminator) are delivered identically -/
+theorem crlf_eq_lf (ls : List Bytes) (hls : ∀ l ∈ ls, (10 : UInt8) ∉ l) (hcl : ∀ l ∈ ls, Spec.Net.edgeClean l = true) :
     (asciiFeed [] (joinEol [13, 10] ls)).2 = (asciiFeed [] (joinEol [10] ls)).2 := by
-  rw [lines_eq_reference, lines_eq_reference]
-  have h1 := lines_join ls [13] hls (by intro c hc; simp at hc; subst hc; decide)
-  have h2 := lines_join ls [] hls (by intro c hc; simp at hc)
-  simp only [List.cons_append, List.nil_append] at h1 h2
-  rw [h1, h2]
+  have p13 : ∀ c ∈ ([13] : Bytes), Spec.Net.isBlank c = true ∧ c ≠ 10 := by intro c hc; simp at hc; subst hc; decide
+  have p0 : ∀ c ∈ ([] : Bytes), Spec.Net.isBlank c = true ∧ c ≠ 10 := by intro c hc; simp at hc
+  have s1 := splitLF_join ls [13] hls p13
+  have s2 := splitLF_join ls [] hls p0
+  have h1 := lines_join ls [13] hls p13
+  have h2 := lines_join ls [] hls p0
+  simp only [List.cons_append, List.nil_append] at h1 h2 s1 s2
+  rw [lines_eq_reference _ (by
+        rw [s1]; intro x hx
+        obtain ⟨l, hl, rfl⟩ := List.mem_map.mp hx
+        exact edgeClean_append_blank l 13 (by decide) (hcl l hl)),
+      lines_eq_reference _ (by
+        rw [s2]; intro x hx
+        obtain ⟨l, hl, rfl⟩ := List.mem_map.mp hx
+        simpa using hcl l hl), h1, h2]
+
+/-- the ASCII loop never touches the deadline: what `AState.start` leaves stays -/
+theorem runA_stop (ts : TScript) : ∀ (s : AState) (acc : Outcome × List Bytes), s.rd = none →
+    (runA s ts acc).1.stop = acc.1.stop ∨ ∃ t, (runA s ts acc).1.stop = some (.peerClosed, t) := by
+  induction ts with
+  | nil => intro s acc _; exact Or.inl rfl
+  | cons a rest ih =>
+    intro s acc hrd
+    obtain ⟨d, act⟩ := a
+    cases act with
+    | nothing => simp only [runA, hrd, firedAt]; exact ih _ _ rfl
+    | close => simp only [runA, hrd, firedAt]; exact Or.inr ⟨_, rfl⟩
+    | bytes b => simp only [runA, hrd, firedAt]; exact ih _ _ rfl
+
+/-- **ASCII: idle periods are harmless** given the reset at line 117 (whichever `Set…Deadline` clears the read
+deadline there): the ASCII loop runs without a deadline, so no script — whatever its delays — ends it by a timeout;
+only `close` ends it -/
+theorem ascii_idle_gap_harmless (cfg : Cfg) (k : DlKind) (h117 : cfg.afterProbe = .clear k) (tp now : Nat)
+    (ts : TScript) :
+    (AState.start cfg tp now).rd = none ∧
+    ((runA (AState.start cfg tp now) ts ({}, [])).1.stop = none ∨
+      ∃ t, (runA (AState.start cfg tp now) ts ({}, [])).1.stop = some (.peerClosed, t)) := by
+  have hrd : (AState.start cfg tp now).rd = none := by
+    simp only [AState.start, h117]
+    cases k <;> simp [DlOp.apply]
+  exact ⟨hrd, runA_stop ts _ _ hrd⟩
+
+/-- without line 117 the probe deadline stays in force in ASCII mode: a panel that sends its first line 2.5 s after
+the probe is dropped at 2000 ms (probe at 0); with 117 the line is delivered -/
+theorem ascii_reset_needed_counterexample :
+    (runA (AState.start { repaired with afterProbe := .skip } 0 10) [(2490, .bytes [112, 10])] ({}, [])).1.stop
+      = some (.timeout, 2000) ∧
+    runA (AState.start repaired 0 10) [(2490, .bytes [112, 10])] ({}, []) = ({}, [[112]]) := by
+  refine ⟨by decide, by decide⟩
 
 /-! non-vacuity -/
 example : deliveries (feedAll .init [[2, 0], [0, 0, 8], [1, 0, 0, 0, 0, 1, 0, 0], [0, 7]]).2 = [[8, 1], [], [7]] := by decide
-example : Reachable repaired ⟨.waitHdr [], none, 5, 5, 5⟩ :=
-  ⟨0, [.arrive 5 1, .arrive 5 0, .arrive 5 0, .arrive 5 0, .arrive 5 42], [.alloc 1, .deliver [42]], by decide⟩
+example : Reachable repaired (CState.start repaired 0 5) := ⟨0, [.enter 5], [], by decide⟩
+example : (runL repaired (CState.probed repaired 0) [.enter 5, .arrive 5 1, .arrive 5 0, .arrive 5 0, .arrive 6 0,
+    .arrive 900 42]).map (fun r => (r.1.r, r.1.dl.rd, r.2)) = some (.waitHdr [], none, [.alloc 1, .deliver [42]]) := by decide
+example : Spec.Net.inContractT limit frameTimeout
+    (timedBytes 0 [(9000, .bytes [1, 0]), (1900, .bytes [0, 0]), (1900, .bytes [7]), (60000, .bytes [0, 0, 0, 0])]) = true := by
+  simp [timedBytes, Spec.Net.inContractT, Spec.Net.u32le, limit, frameTimeout, Gen.clientFrameLimit, Gen.clientFrameTimeoutMs]
+example : deliveries (runT repaired 0 (CState.start repaired 0 0)
+    [(9000, .bytes [1, 0]), (1900, .bytes [0, 0]), (1900, .bytes [7]), (60000, .bytes [0, 0, 0, 0])] {}).effs = [[7], []] := by decide
 example : (asciiFeed [] [112, 13, 10, 32, 113, 32, 10, 10, 114]).2 = [[112], [113], []] := by decide
+example : Spec.Net.edgeClean [112, 13] = true := by decide
 
 end RawPanelVerif.C08
